@@ -131,6 +131,12 @@ def _recursion_complete(fn: FuncInfo, body: list, subject: str, over_values: boo
                     base = it.args[0]
                 if not (isinstance(base, ast.Name) and base.id == subject):
                     return False, f'the comprehension iterates `{src(it)}`, not all of `{subject}`'
+                # every return of this case must be that complete recursion: an extra "fast path" return for some
+                # collections (first element looks scalar, already hashable, ...) skips items
+                for st in body:
+                    for r in ast.walk(st):
+                        if isinstance(r, ast.Return) and not any(x is n for x in ast.walk(r)):
+                            return False, f'`{src(r)[:60]}` returns from the collection case without the complete recursion'
                 return True, ''
     return False, 'no recursive comprehension over the items'
 
